@@ -231,7 +231,7 @@ func (c *Connect) unpackPayload(bufr *bytes.Buffer) error {
 			return err
 		}
 	}
-	return nil
+	return endOfPacket(bufr)
 }
 
 // NewConnectPacket returns a Connect instance by the given FixHeader and io.Reader
